@@ -302,7 +302,15 @@ async fn fragments(ctx: Ctx, frag: usize, value_lens: Vec<usize>, reliable: bool
     ctx.obs(format!("frag={frag} lens={value_lens:?} datagrams={k}"));
     // fate of every captured datagram and the delivery order: all enumerated
     let fates: Vec<usize> = (0..k).map(|_| ctx.choose(b'N', 3)).collect(); // 0 deliver, 1 drop, 2 duplicate
-    let perms = if k <= 4 { permutations(k) } else { vec![(0..k).collect(), (0..k).rev().collect(), (0..k).map(|i| (i * 2) % k + (if i * 2 >= k && k % 2 == 0 { 1 } else { 0 })).collect()] };
+    // up to 4 datagrams (5 in the thorough tier): every arrival order; beyond: in order, reversed, stride 2, and a riffle of the
+    // two halves (with two samples: their fragments alternate)
+    let thorough = std::env::args().any(|a| a == "thorough");
+    let perms = if k <= 4 || (k <= 5 && thorough && value_lens.len() > 1) {
+        permutations(k)
+    } else {
+        let h = (k + 1) / 2;
+        vec![(0..k).collect(), (0..k).rev().collect(), (0..k).map(|i| (i * 2) % k + (if i * 2 >= k && k % 2 == 0 { 1 } else { 0 })).collect(), (0..k).map(|i| if i % 2 == 0 { i / 2 } else { h + i / 2 }).collect()]
+    };
     let order = &perms[ctx.choose(b'N', perms.len())];
     let mut order_ok = order.clone();
     order_ok.sort();
@@ -319,6 +327,25 @@ async fn fragments(ctx: Ctx, frag: usize, value_lens: Vec<usize>, reliable: bool
         }
     }
     let any_dropped = fates.iter().any(|f| *f == 1);
+    // best-effort, nothing dropped: every fragment of every sample arrives. A best-effort reader never goes back, so a sample
+    // may be given up once a later one has been completed; a sample completed before every later one must be presented -
+    // whatever fragments of other samples arrive in between
+    let mut must_deliver: Vec<u32> = vec![];
+    if !reliable && !any_dropped {
+        let mut completed_at: std::collections::BTreeMap<i64, usize> = Default::default();
+        for (pos, &i) in order.iter().enumerate() {
+            let m = crate::wire::parse(&datagrams[i]);
+            for sm in m.subs.iter().filter(|s| s.id == crate::wire::DATA_FRAG || s.id == crate::wire::DATA) {
+                let e = completed_at.entry(sm.sn).or_insert(pos);
+                *e = (*e).max(pos);
+            }
+        }
+        for (sn, c) in &completed_at {
+            if completed_at.iter().all(|(sn2, c2)| sn2 <= sn || c2 > c) {
+                must_deliver.push((*sn - 1) as u32);
+            }
+        }
+    }
     let start = ctx.now();
     let mut got: Vec<u32> = vec![];
     loop {
@@ -349,6 +376,8 @@ async fn fragments(ctx: Ctx, frag: usize, value_lens: Vec<usize>, reliable: bool
                 ctx.violation(format!("not-delivered/{}", if any_dropped { "after-loss" } else { "reorder-or-duplicate-only" }), format!("frag={frag} lens={value_lens:?}: got {got:?} after 3 s; fates={fates:?} order={order:?}"));
             } else if !any_dropped && fates.iter().all(|f| *f == 0) && order.windows(2).all(|w| w[0] < w[1]) {
                 ctx.violation("not-delivered/best-effort-no-fault", format!("frag={frag} lens={value_lens:?}: got {got:?}"));
+            } else if must_deliver.iter().any(|x| !got.contains(x)) {
+                ctx.violation("not-delivered/best-effort-all-fragments-arrived", format!("frag={frag} lens={value_lens:?}: every fragment arrived (fates={fates:?} order={order:?}), samples {must_deliver:?} were complete before any later sample, presented {got:?}"));
             }
             break;
         }
